@@ -139,7 +139,7 @@ func (pConn *PFCPConn) handleSessionEstablishmentRequest(msg message.Message) (m
 	// FIXME: since PacketForwardingRules doesn't store pointers,
 	//  we must also mark session QERs in addQERs.
 	//  We need a kind of refactoring to clean it up.
-	session.MarkSessionQer(addQERs)
+	session.CopyQosLevels(addQERs)
 
 	// session.PacketForwardingRules stores all PFCP rules that has been installed so far,
 	// while 'updated' stores only the PFCP rules that have been provided in this particular message.
@@ -339,7 +339,7 @@ func (pConn *PFCPConn) handleSessionModificationRequest(msg message.Message) (me
 	// FIXME: since PacketForwardingRules doesn't store pointers,
 	//  we must also mark session QERs in addQERs.
 	//  We need a kind of refactoring to clean it up.
-	session.MarkSessionQer(addQERs)
+	session.CopyQosLevels(addQERs)
 
 	updated := PacketForwardingRules{
 		pdrs: addPDRs,
